@@ -78,7 +78,7 @@ Definition diff_code (n : node) (outs : list output) (x : eobs) : Z :=
   + bit (list_eqb (fun a b => (fst a =? fst b) && (snd a =? snd b))
                   (sort_by le_pair (List.map (fun t => let '(h, e, _) := t in (h, e)) (n_app_waiting n))) (x_app_waiting x)) 11
   + bit (list_eqb (fun a b => (fst a =? fst b) && (snd a =? snd b))
-                  (sort_by le_pair (List.map (fun t => let '(h, e, _) := t in (h, e)) (n_origin_waiting n))) (x_origin_waiting x)) 12
+                  (sort_by le_pair (List.map (fun t => let '(_, h, e, _) := t in (h, e)) (n_origin_waiting n))) (x_origin_waiting x)) 12
   + bit (list_eqb (fun a b => String.eqb (fst a) (fst b) && list_eqb Z.eqb (snd a) (snd b))
                   (sort_by (fun a b => str_le (fst a) (fst b)) (n_sent_answers n)) (x_sent_answers x)) 13
   + bit (list_eqb Bool.eqb (List.map a_ready (n_apps n)) (x_ready x)) 14
